@@ -63,7 +63,15 @@ def trcStep (st : VmEngState) (args : List String) : String :=
       | .error e => "compile-" ++ showCErr e
       | .ok prog =>
         let p := Prog.ofProgram prog
-        let (_, e) := run p (kv rest "budget" Gen.maxInstr) (VmState.fresh st.cfg)
+        -- an earlier run on the same machine, not cleared (`prev=<module>`)
+        let s0 : VmState :=
+          match (rest.find? (fun a => a.startsWith "prev=")).bind (fun a => Module.ofTok? (a.drop 5).toString) with
+          | some pm =>
+            match compile pm Gen.stdlib with
+            | .ok pprog => (run (Prog.ofProgram pprog) (kv rest "budget" Gen.maxInstr) (VmState.fresh st.cfg)).1
+            | .error _ => VmState.fresh st.cfg
+          | none => VmState.fresh st.cfg
+        let (_, e) := run p (kv rest "budget" Gen.maxInstr) s0
         match e with
         | none => "ok"
         | some e =>
